@@ -144,10 +144,30 @@ def run(ctx):
             ctx.tie_broken.append('correspondence (%s, %s): %s' % (ty, c, r['div'][0][:300]))
         if msgs and len(ctx.violations) < 3:
             ctx.violation('%s/%s' % (ty, c), 'C12 fails on the implementation (%s): %s' % (ty, msgs[0]), dict(harness='h_move.cpp', config=c, script=r['case']['script'].split('\n'), all=msgs[:5]))
+    # moved-from objects under the leak accounting: histories with move constructions and move assignments whose allocations go through
+    # the traits (so that they are counted); a moved-from object must report nothing for memory that went to, and was released through,
+    # the new owner
+    from checks import c15, poolgen
+    lcfgs = ['base', 'dbg8']
+    lexe = {c: build.build_harness('pool', c, ['h_pool.cpp']) for c in lcfgs}
+    lcases = []
+    for i in range(60 if thorough else 16):
+        t = poolgen.gen_target(rng)
+        sc = c15.gen_leak_script(rng, t)
+        if 'mv' not in sc and 'ma ' not in sc:
+            continue
+        for c in lcfgs:
+            lcases.append(dict(exe=lexe[c], script=sc, replay_args=['leak'], tag=(t['line'], c)))
+    lres = runner.run_cases(lcases, rexe)
+    for r in lres:
+        lmsgs = c15.oracle(r['log'])
+        if lmsgs and len(ctx.violations) < 3:
+            ctx.violation('leak-accounting/%s/%s' % r['case']['tag'], 'C12 fails on the implementation: after moves an object reported memory it no longer owns (or kept quiet about memory it does): ' + lmsgs[0],
+                          dict(harness='h_pool.cpp', config=r['case']['tag'][1], script=r['case']['script'].split('\n'), all=lmsgs[:5]))
     ctx.tie_broken = ctx.tie_broken[:6]
     ctx.cov.update(dict(
         tie=dict(kind='Exec lock-step of the ownership model: for every operation the set of blocks returned upstream must equal the model\'s, the moved-from / live / empty state of the four slots must agree, at exit the remaining objects return exactly what the model says they own; independent oracle: byte patterns written into memory obtained before a move are verified after every operation and before release through the new owner, no block returned twice or never, moves and swaps make no upstream call, no stale write into returned blocks, no abort in any configuration (assertions on in dbg8)',
-                 configs=cfgs, types=TYPES, histories=len(cases), model_steps=tot.get('ops', 0), move_constructions=tot.get('moves', 0), move_assignments=tot.get('assigns', 0), swaps=tot.get('swaps', 0), destructions=tot.get('dels', 0), divergences=tot.get('diverged', 0)),
+                 configs=cfgs, types=TYPES, histories=len(cases), leak_accounting_histories_with_moves=len(lcases), model_steps=tot.get('ops', 0), move_constructions=tot.get('moves', 0), move_assignments=tot.get('assigns', 0), swaps=tot.get('swaps', 0), destructions=tot.get('dels', 0), divergences=tot.get('diverged', 0)),
         evaluations=len(cases), distinct_nontrivial=len(set(c['script'] for c in cases)),
         rule='per type seeded histories over four slots: construct, take memory (forcing growth), release through the current owner, move-construct into an empty slot, move-assign onto live (non-empty) and moved-from targets, swap (friend swap where the type has one, std::swap otherwise) of live and moved-from objects, destroy live and moved-from objects, chains of moves; object placed below and above its memory; distinct = distinct scripts'))
     if res:
